@@ -50,6 +50,14 @@ pub(super) fn reconstruct_blocks_from_verified_blobs(
 
     // match rollup blobs to header blobs
     for rollup in rollup_blobs {
+        if rollup.rollup_id() != rollup_id {
+            info!(
+                block_hash = %rollup.sequencer_block_hash(),
+                rollup_id_in_blob = %rollup.rollup_id(),
+                "dropping rollup blob because it does not carry data of the target rollup",
+            );
+            continue;
+        }
         if let Some(header_blob) =
             remove_header_blob_matching_rollup_blob(&mut header_blobs, &rollup)
         {
